@@ -229,7 +229,16 @@ func (w *c19World) host(r *vfRand) string {
 // c19Mangle makes a TXT string out of a hash: mostly well-formed.
 func c19Mangle(r *vfRand, h [32]byte) (s string, valid bool) {
 	s = hex.EncodeToString(h[:])
-	switch r.Intn(12) {
+	switch r.Intn(15) {
+	case 12:
+		// over-long, even length, decodes: the first 32 bytes are the hash
+		return s + vfPick(r, []string{"00", "ff", "0000"}), false
+	case 13:
+		// two hashes glued together
+		o := sha256.Sum256([]byte(s))
+		return s + hex.EncodeToString(o[:]), false
+	case 14:
+		return s + s, false
 	case 0:
 		return strings.ToUpper(s), true
 	case 1:
@@ -733,6 +742,10 @@ func TestVerifC19(t *testing.T) {
 		{Suffix: "sb.dns.adguard.com.", DB: []string{strings.ToUpper(hx("shop.co.uk")), hx("good.org")[:63], hx("good.org") + "0",
 			hex.EncodeToString(other[:]), "zz", ""},
 			Steps: []c19Step{chk("a.shop.co.uk"), chk("good.org"), chk("www.good.org"), chk("good.org")}},
+		// over-long TXT strings that decode and start with the hash of the queried name or of a parent: not a hash
+		{Suffix: "sb.dns.adguard.com.", DB: []string{hx("www.good.org") + "00", hx("good.org") + hx("other.example"), hx("shop.co.uk") + hx("shop.co.uk"),
+			strings.ToUpper(hx("a.shop.co.uk")) + "FF"},
+			Steps: []c19Step{chk("www.good.org"), chk("good.org"), chk("www.good.org"), chk("a.shop.co.uk"), chk("shop.co.uk"), adv(3700), chk("www.good.org")}},
 		// upstream failure leaves the cache alone
 		{Suffix: "sb.dns.adguard.com.", DB: []string{hx("evil.com")},
 			Steps: []c19Step{{Kind: "check", Host: "evil.com", Fail: true}, chk("evil.com"), {Kind: "check", Host: "evil.com", Fail: true},
